@@ -186,6 +186,17 @@ func Docs(r *vfh.Rand, rounds int) []Doc {
 			}
 			docs = append(docs, Doc{Tag: fmt.Sprintf("mask-%02x-%d", mask, round), TOML: sb.String()})
 		}
+		// many interfaces (a response of several kilobytes): 8..14 advertising interfaces with
+		// rich stanzas, the last one with the wildcards — an answer is a complete document or an
+		// error, whatever its size and wherever in it an interface cannot be rendered
+		pick := func(_, n int) int { return r.Intn(n) }
+		var sb strings.Builder
+		n := 8 + r.Intn(7)
+		for k := 0; k < n; k++ {
+			mask := 0x0f | r.Intn(256)
+			sb.WriteString(stanza(fmt.Sprintf("many%d", k), mask, vfh.Pick(r, headerVariants), pick))
+		}
+		docs = append(docs, Doc{Tag: fmt.Sprintf("many-%d-%d", n, round), TOML: sb.String()})
 	}
 	return docs
 }
@@ -480,6 +491,15 @@ func Cases(r *vfh.Rand, d Doc, n int) []Case {
 			mix[i] = vfh.Pick(r, []byte{'N', 'I', 'R'})
 		}
 		lcs = append(lcs, mix)
+	}
+	if n >= 6 {
+		// everything initialised but the last interface / but one in the second half
+		late := all('I')
+		late[n-1] = 'N'
+		lcs = append(lcs, late)
+		late2 := all('I')
+		late2[n/2+r.Intn(n-n/2)] = 'N'
+		lcs = append(lcs, late2)
 	}
 	for _, lc := range lcs {
 		c := Case{Doc: d, LC: lc, Sys: GenSys(r)}
